@@ -184,6 +184,8 @@ def run(chk):
     chk.ob("R7.never_blocks", fn, "the poll loop uses only try_recv / try_iter / recv_nonblocking", True)
     from . import c11
     c11.probe_only_first(chk, prog, "R1.whole_messages")
+    # sends are write_all on a socket that must be blocking: the non-blocking probe has to put the socket back on every return
+    c11.blocking_mode_restored(chk, prog, rule="R3.sends_on_blocking_socket")
     # ---- R5 shutdown
     keys = [blk for blk, t in b.calls_to(r"HashMap::<K, V, S, A>::keys$")]
     tr = [blk for blk, t in b.calls_to(r"Receiver::<T>::try_recv$") if desc_contains(describe(prog, b, t["args"][0]), lambda y: y[0] == "field" and y[2] == ix["shutdown"])]
